@@ -54,18 +54,18 @@ def _std_getitem_variants(props_idx=('C02',), props_key=('C03',), with_key=True,
 
 
 def _iter_variants(loops=None, loops_key=None, has_items=lambda S: self_view(S).items, props=('C01',),
-                   props_items=('C03',), inline=()):
+                   props_items=('C03',), inline=(), hooks=None, loops_refused=None):
     oy, po = iter_clauses(self_view, False)
     oyk, pok = iter_clauses(self_view, True)
-    oyr, por = items_refused_clauses()
+    oyr, por = items_refused_clauses(self_view)
     return [
         Variant('values', params={'with_key': 'false'}, generator=True, on_yield=oy, post=po,
-                loops=loops or {}, props=props, inline=inline),
+                loops=loops or {}, props=props, inline=inline, hooks=hooks),
         Variant('items', params={'with_key': 'true'}, generator=True, on_yield=oyk, post=pok,
-                requires=has_items, loops=loops_key or loops or {}, props=props_items, inline=inline),
+                requires=has_items, loops=loops_key or loops or {}, props=props_items, inline=inline, hooks=hooks),
         Variant('items-refused', params={'with_key': 'true'}, generator=True, on_yield=oyr, post=por,
-                requires=lambda S: z3.Not(has_items(S)), loops=loops_key or loops or {}, props=props_items,
-                inline=inline),
+                requires=lambda S: z3.Not(has_items(S)), loops=loops_refused or loops_key or loops or {},
+                props=props_items, inline=inline, hooks=hooks),
     ]
 
 
@@ -77,7 +77,7 @@ class ListDatasetC(ClassContract):
         ex = z3.Function('EX!%d' % next(smt._counter), smt.Int, smt.Obj)
         n = smt.fresh('n_examples', smt.Int)
         st.pc.append(n >= 0)
-        return {'examples': SymSeqV(n, j, ObjV(ex(j)), 'list'), 'name': NONE}
+        return {'examples': SymSeqV(n, lambda e: ObjV(ex(e)), 'list'), 'name': NONE}
 
     def view(self, eng, st):
         return ListView(st.heap[eng.self_oid]['examples'])
